@@ -99,12 +99,19 @@ BADTYPE_VALUES = {'list': [0, 1], 'none': None, 'dict': {'a': 1},
                   'set': {1, 2}}
 
 
-def apply_real(prior, op):
+def apply_real(prior, op, shared=None):
     kind, key = op[0], op[1]
     if kind == 'uniform':
         prior.add_parameter(key, dist=(op[2], op[3]))
     elif kind == 'dist':
-        prior.add_parameter(key, dist=make_dist(op[2]))
+        if len(op) > 3 and op[3] == 'shared' and shared is not None:
+            # the same frozen distribution OBJECT declared for several keys
+            k = tuple(op[2])
+            if k not in shared:
+                shared[k] = make_dist(op[2])
+            prior.add_parameter(key, dist=shared[k])
+        else:
+            prior.add_parameter(key, dist=make_dist(op[2]))
     elif kind == 'fixed':
         prior.add_parameter(key, dist=op[2])
     elif kind == 'link':
@@ -232,12 +239,13 @@ def execute(case):
     model = Model()
     qrng = np.random.default_rng(case.get('qseed', 0))
     stats = dict(accepted=0, rejected=0, queries=0, kinds={})
+    shared = {}
     try:
         for step, op in enumerate(case['ops']):
             cls = model.classify(op)
             before = snapshot(prior)
             try:
-                apply_real(prior, op)
+                apply_real(prior, op, shared)
                 raised = None
             except Exception as e:
                 raised = e
@@ -284,6 +292,7 @@ def draw_history(rng, max_len=8, p_bad=0.3):
     n = rng.randrange(1, max_len + 1)
     ops = []
     keys = []          # keys the model will hold (mirrors classify)
+    used_dists = []
 
     def fresh_key():
         if rng.random() < 0.35:
@@ -298,8 +307,12 @@ def draw_history(rng, max_len=8, p_bad=0.3):
             lo = rng.choice([-5.0, 0.0, 1.5, -0.25])
             return [lo, lo + rng.choice([1.0, 0.5, 10.0])]
         if kind == 'dist':
-            return [[rng.choice(DISTS), rng.choice([-1.0, 0.0, 2.0]),
-                     rng.choice([0.5, 1.0, 3.0])]]
+            if used_dists and rng.random() < 0.4:
+                return [list(rng.choice(used_dists)), 'shared']
+            spec = [rng.choice(DISTS), rng.choice([-1.0, 0.0, 2.0]),
+                    rng.choice([0.5, 1.0, 3.0])]
+            used_dists.append(spec)
+            return [spec, rng.choice(['own', 'shared'])]
         if kind == 'fixed':
             return [rng.choice([0, 1, -2.5, 3.0, 1e3])]
         return [rng.choice([k for k in keys if k != key_eff])]
